@@ -14,6 +14,7 @@ import (
 	"time"
 
 	"github.com/cilium/statedb/internal"
+	"github.com/cilium/statedb/internal/simhook"
 )
 
 // DB provides an in-memory transaction database built on top of immutable radix
@@ -153,7 +154,9 @@ func (db *DB) updateWriteTxnPoolLocked(numTables int) {
 }
 
 func (db *DB) registerTable(table TableMeta) error {
+	simhook.Acquire(&db.mu, "register.lock")
 	db.mu.Lock()
+	defer simhook.Release(&db.mu, "register.unlock")
 	defer db.mu.Unlock()
 
 	root := slices.Clone(*db.root.Load())
@@ -171,6 +174,7 @@ func (db *DB) registerTable(table TableMeta) error {
 
 	db.updateWriteTxnPoolLocked(len(root))
 
+	simhook.Yield("register.preStore")
 	db.root.Store(&root)
 	return nil
 }
@@ -213,11 +217,14 @@ func (db *DB) WriteTxn(tables ...TableMeta) WriteTxn {
 		txn.smus[i] = table.sortableMutex()
 	}
 
+	simhook.Yield("writetxn.begin")
 	lockAt := time.Now()
 	txn.smus.Lock()
 	acquiredAt := time.Now()
+	simhook.Yield("writetxn.locked")
 
 	txn.oldRoot = db.root.Load()
+	simhook.Yield("writetxn.rootLoaded")
 
 	// Clone the root. This new allocation will become the new root when
 	// we commit.
